@@ -1,4 +1,5 @@
 """Nodule that contains utilities for grounding PDDL+ actions."""
+from collections import Counter
 from typing import Dict, List, Set
 
 from anytree import AnyNode
@@ -39,8 +40,22 @@ def _iterate_calc_tree_and_ground(
                         parameters_map[lifted_function_params[index]]
                     ] = lifted_function.signature[parameter_name]
 
+            # the signature is keyed by the objects' names so repeating objects have to be counted separately.
+            grounded_objects = [
+                parameter_name
+                if parameter_name in domain.constants
+                else parameters_map[parameter_name]
+                for parameter_name in lifted_function_params
+            ]
+            repeating_objects = {
+                object_name: count
+                for object_name, count in Counter(grounded_objects).items()
+                if count > 1
+            }
             grounded_function = PDDLFunction(
-                name=lifted_function.name, signature=grounded_signature
+                name=lifted_function.name,
+                signature=grounded_signature,
+                repeating_variables=repeating_objects,
             )
             return AnyNode(id=str(grounded_function), value=grounded_function)
 
